@@ -112,9 +112,11 @@ type ErrDef struct {
 
 // Service groups methods.
 type Service struct {
-	Name       string     `json:"name"`
-	Path       string     `json:"path,omitempty"`
-	Parent     string     `json:"parent,omitempty"` // HTTP parent service (Parent DSL)
+	Name   string `json:"name"`
+	Path   string `json:"path,omitempty"`
+	Parent string `json:"parent,omitempty"` // HTTP parent service (Parent DSL)
+	// Files are file servers: [request path, file or directory]
+	Files      [][]string `json:"files,omitempty"`
 	Errors     []*ErrDef  `json:"errors,omitempty"`
 	HTTPErrors []*ErrResp `json:"http_errors,omitempty"`
 	Security   []Req      `json:"security,omitempty"`
